@@ -250,6 +250,9 @@ def check(run):
     else:
         run.incomplete("F-CACHE/face-areas", c, where(fa), "no store of face_areas found in the getter")
     _point_equalities(run, P)
+    # default areas of a Cartesian-supplied grid use lon/lat derived through _xyz_to_lonlat_*: a widened pole window moves corners
+    from .c04 import _xyz_helpers
+    _xyz_helpers(run, P)
     _memo_paths(run, P, f)
     reads_cache = any(str_const(n.slice) == "face_areas" for n in ast.walk(f.node) if isinstance(n, ast.Subscript)) or any(isinstance(n, ast.Attribute) and n.attr == "face_areas" for n in ast.walk(f.node))
     c = "Grid.compute_face_areas:ignores-cache"
